@@ -13,31 +13,35 @@ EXTENDS Naturals, Sequences, FiniteSets, TLC, Json
 CONSTANTS KeyClasses, ValClasses, Levels, MaxMsgs, HostileKinds
 Msg == [key : KeyClasses, value : ValClasses, level : Levels, old : BOOLEAN]
 VARIABLES stage, client, pending, jar, seen, hostile,
-          extra     \* the client also holds an unrelated cookie, which it sends BEFORE the flash cookie
-vars == <<stage, client, pending, jar, seen, hostile, extra>>
+          extra,    \* the client also holds an unrelated cookie, which it sends BEFORE the flash cookie
+          via       \* how the redirect was issued: To(url) | Route(name) | Route(name, with query parameters) | Back(fallback)
+vars == <<stage, client, pending, jar, seen, hostile, extra, via>>
+Vias == {"to", "route", "routequery", "back"}
 \* message sets: distinct keys per kind (With() replaces an equal key), old input carries no level
 OkMsg == {m \in Msg : m.old => m.level = 0}
 MsgSets == {{a} : a \in OkMsg} \cup
            (IF MaxMsgs >= 2 THEN {S \in {{a, b} : a \in OkMsg, b \in OkMsg} : Cardinality(S) = 2 /\ \A x, y \in S : x # y => ~(x.key = y.key /\ x.old = y.old)} ELSE {})
 Init == /\ stage = "start" /\ client \in {"conforming", "transparent", "inprocess"} /\ pending = {} /\ jar = "empty"
-        /\ seen = <<>> /\ hostile = "none" /\ extra \in BOOLEAN
+        /\ seen = <<>> /\ hostile = "none" /\ extra \in BOOLEAN /\ via = "to"
 
 \* the server answers a request with Redirect().With(...).WithInput().To(...): the response carries the flash cookie
+\* (whichever way the redirect is issued)
 RedirectWith == /\ stage = "start" /\ \E S \in MsgSets : pending' = S
+                /\ via' \in Vias
                 /\ stage' = "redirected" /\ jar' = "flash" /\ UNCHANGED <<client, seen, hostile>>
 \* the client follows the redirect presenting the cookie: the handler sees exactly the pending messages; the response expires the cookie
 Follow == /\ stage = "redirected" /\ jar = "flash"
-          /\ seen' = Append(seen, pending) /\ jar' = "empty" /\ stage' = "followed" /\ UNCHANGED <<client, pending, hostile>>
+          /\ seen' = Append(seen, pending) /\ jar' = "empty" /\ stage' = "followed" /\ UNCHANGED <<client, pending, hostile, via>>
 \* any later request: nothing is presented, nothing is seen
-Again == /\ stage = "followed" /\ seen' = Append(seen, {}) /\ stage' = "done" /\ UNCHANGED <<client, pending, jar, hostile>>
+Again == /\ stage = "followed" /\ seen' = Append(seen, {}) /\ stage' = "done" /\ UNCHANGED <<client, pending, jar, hostile, via>>
 \* independently: a request carrying a cookie that is not a well-formed encoding sees nothing
 Hostile == /\ stage = "start" /\ \E k \in HostileKinds : hostile' = k
-           /\ seen' = <<{}>> /\ stage' = "done" /\ UNCHANGED <<client, pending, jar>>
+           /\ seen' = <<{}>> /\ stage' = "done" /\ UNCHANGED <<client, pending, jar, via>>
 \* and a request without any cookie sees nothing
-NoCookie == /\ stage = "start" /\ hostile' = "nocookie" /\ seen' = <<{}>> /\ stage' = "done" /\ UNCHANGED <<client, pending, jar>>
+NoCookie == /\ stage = "start" /\ hostile' = "nocookie" /\ seen' = <<{}>> /\ stage' = "done" /\ UNCHANGED <<client, pending, jar, via>>
 Next == (RedirectWith \/ Follow \/ Again \/ Hostile \/ NoCookie) /\ UNCHANGED extra
 Spec == Init /\ [][Next]_vars
 
 DeliveredOnce == stage = "done" /\ pending # {} => Cardinality({i \in 1..Len(seen) : seen[i] = pending}) = 1
-Emit == stage = "done" => PrintT(<<"CASE", ToJson([client |-> client, pending |-> pending, hostile |-> hostile, seen |-> seen, extra |-> extra])>>)
+Emit == stage = "done" => PrintT(<<"CASE", ToJson([client |-> client, pending |-> pending, hostile |-> hostile, seen |-> seen, extra |-> extra, via |-> via])>>)
 =============================================================================
